@@ -39,6 +39,16 @@ Section Order.
     - right. right. apply (cmp_antisym O) in H as H'. unfold lt. auto.
   Qed.
 
+  (* last element of a list *)
+  Fixpoint last_opt {A} (l : list A) : option A :=
+    match l with [] => None | [x] => Some x | _ :: l' => last_opt l' end.
+  Lemma last_opt_cons {A} (x : A) l : l <> [] -> last_opt (x :: l) = last_opt l.
+  Proof. destruct l; [congruence|reflexivity]. Qed.
+  Lemma last_opt_app {A} (l1 : list A) x l2 : last_opt (l1 ++ x :: l2) = last_opt (x :: l2).
+  Proof.
+    induction l1 as [|a l1 IH]; auto. cbn [app]. rewrite last_opt_cons; auto. now destruct l1.
+  Qed.
+
   (* ------------------------------------------------------------------ finite maps *)
   Section Maps.
     Context {V : Type}.
@@ -384,7 +394,186 @@ Section Order.
     Qed.
     Lemma afilter_sorted f l : sorted l -> sorted (afilter f l).
     Proof. apply filter_sorted. Qed.
+
+    (* ---- lookup characterises a sorted association list *)
+    Lemma find_some_in k v l : find k l = Some v -> In (k, v) l.
+    Proof.
+      induction l as [|[k1 v1] l IH]; cbn [find]; [discriminate|].
+      destruct (Z.eqb_spec (cmp k k1) 0) as [E|N]; intros H.
+      - apply (cmp_eq O) in E. inversion H; subst. now left.
+      - right. auto.
+    Qed.
+
+    Lemma keys_lt_find l k : keys_lt l k <-> (forall k', find k' l <> None -> lt k' k).
+    Proof.
+      split.
+      - intros H k' Hf. destruct (find k' l) as [v|] eqn:E; [|congruence].
+        apply find_some_in in E. unfold keys_lt in H. rewrite Forall_forall in H. exact (H _ E).
+      - induction l as [|[k1 v1] l IH]; intros H; [constructor|]. constructor.
+        + apply H. cbn [find]. rewrite cmp_refl. cbn. discriminate.
+        + apply IH. intros k' Hk'. apply H. cbn [find]. destruct (cmp k' k1 =? 0); [discriminate|auto].
+    Qed.
+
+    Lemma keys_gt_find l k : keys_gt l k <-> (forall k', find k' l <> None -> lt k k').
+    Proof.
+      split.
+      - intros H k' Hf. destruct (find k' l) as [v|] eqn:E; [|congruence].
+        apply find_some_in in E. unfold keys_gt in H. rewrite Forall_forall in H. exact (H _ E).
+      - induction l as [|[k1 v1] l IH]; intros H; [constructor|]. constructor.
+        + apply H. cbn [find]. rewrite cmp_refl. cbn. discriminate.
+        + apply IH. intros k' Hk'. apply H. cbn [find]. destruct (cmp k' k1 =? 0); [discriminate|auto].
+    Qed.
+
+    Theorem find_ext l1 l2 : sorted l1 -> sorted l2 -> (forall k, find k l1 = find k l2) -> l1 = l2.
+    Proof.
+      revert l2. induction l1 as [|[k1 v1] l1 IH]; intros [|[k2 v2] l2] S1 S2 H; auto.
+      - specialize (H k2). cbn [find] in H. rewrite cmp_refl in H. discriminate.
+      - specialize (H k1). cbn [find] in H. rewrite cmp_refl in H. discriminate.
+      - cbn [sorted] in S1, S2. destruct S1 as [G1 S1], S2 as [G2 S2].
+        assert (k1 = k2 /\ v1 = v2) as [-> ->].
+        { pose proof (H k1) as H1. pose proof (H k2) as H2. cbn [find] in H1, H2. rewrite cmp_refl in H1, H2.
+          destruct (cmp_cases k1 k2) as [(L & A & B)|[(E & A & B)|(L & A & B)]].
+          - exfalso. destruct (Z.eqb_spec (cmp k1 k2) 0); [lia|].
+            rewrite (find_gt_none k1 l2) in H1 by (eapply keys_gt_trans; eauto). discriminate.
+          - subst. destruct (Z.eqb_spec (cmp k2 k2) 0); [|lia]. inversion H1; auto.
+          - exfalso. destruct (Z.eqb_spec (cmp k2 k1) 0); [lia|].
+            rewrite (find_gt_none k2 l1) in H2 by (eapply keys_gt_trans; eauto). discriminate. }
+        f_equal. apply IH; auto. intros k. specialize (H k). cbn [find] in H.
+        destruct (Z.eqb_spec (cmp k k2) 0) as [E|N]; auto.
+        apply (cmp_eq O) in E. subst. now rewrite !find_gt_none by auto.
+    Qed.
+
+    Lemma find_below k k' l : find k' (below k l) = if cmp k' k <? 0 then find k' l else None.
+    Proof.
+      induction l as [|[k1 v1] l IH]; cbn [below filter find fst]; [now destruct (cmp k' k <? 0)|].
+      fold (below k l). destruct (Z.eqb_spec (cmp k' k1) 0) as [E|N].
+      - apply (cmp_eq O) in E. subst k1. destruct (cmp k' k <? 0) eqn:Ec.
+        + cbn [find]. now rewrite cmp_refl.
+        + exact IH.
+      - destruct (cmp k1 k <? 0); [cbn [find]; destruct (Z.eqb_spec (cmp k' k1) 0); [lia|]|]; exact IH.
+    Qed.
+
+    Lemma find_above k k' l : find k' (above k l) = if 0 <? cmp k' k then find k' l else None.
+    Proof.
+      induction l as [|[k1 v1] l IH]; cbn [above filter find fst]; [now destruct (0 <? cmp k' k)|].
+      fold (above k l). destruct (Z.eqb_spec (cmp k' k1) 0) as [E|N].
+      - apply (cmp_eq O) in E. subst k1. destruct (0 <? cmp k' k) eqn:Ec.
+        + cbn [find]. now rewrite cmp_refl.
+        + exact IH.
+      - destruct (0 <? cmp k1 k); [cbn [find]; destruct (Z.eqb_spec (cmp k' k1) 0); [lia|]|]; exact IH.
+    Qed.
+
+    Definition opt_entry (k : K) (o : option V) : alist := match o with Some v => [(k, v)] | None => [] end.
+
+    Lemma find_mid k' l1 k (mid : option V) l2 : keys_lt l1 k -> keys_gt l2 k ->
+      find k' (l1 ++ opt_entry k mid ++ l2) =
+        if cmp k' k <? 0 then find k' l1 else if cmp k' k =? 0 then mid else find k' l2.
+    Proof.
+      intros H1 H2. destruct (cmp_cases k' k) as [(L & A & B)|[(E & A & B)|(L & A & B)]].
+      - destruct (Z.ltb_spec (cmp k' k) 0); [|lia]. destruct mid as [v|]; cbn [opt_entry app].
+        + now apply find_app_lt.
+        + rewrite find_app. destruct (find k' l1); auto. apply find_gt_none. eapply keys_gt_trans; eauto.
+      - subst k'. destruct (Z.ltb_spec (cmp k k) 0); [lia|]. destruct (Z.eqb_spec (cmp k k) 0); [|lia].
+        destruct mid as [v|]; cbn [opt_entry app].
+        + now apply find_app_eq.
+        + rewrite find_app, find_lt_none by auto. now apply find_gt_none.
+      - destruct (Z.ltb_spec (cmp k' k) 0); [lia|]. destruct (Z.eqb_spec (cmp k' k) 0); [lia|].
+        destruct mid as [v|]; cbn [opt_entry app].
+        + now apply find_app_gt.
+        + rewrite find_app, find_lt_none by (eapply keys_lt_trans; eauto). reflexivity.
+    Qed.
+
+    Lemma sorted_app2 l1 k l2 : sorted l1 -> sorted l2 -> keys_lt l1 k -> keys_gt l2 k -> sorted (l1 ++ l2).
+    Proof.
+      induction l1 as [|[k1 v1] l1 IH]; cbn [app sorted]; intros S1 S2 H1 H2; auto.
+      destruct S1 as [G1 S1]. inversion H1; subst. cbn [fst] in *. split.
+      - apply Forall_app. split; auto. eapply keys_gt_trans; eauto.
+      - apply IH; auto.
+    Qed.
+
+    Lemma sorted_mid l1 k (mid : option V) l2 : sorted l1 -> sorted l2 -> keys_lt l1 k -> keys_gt l2 k ->
+      sorted (l1 ++ opt_entry k mid ++ l2).
+    Proof.
+      intros S1 S2 H1 H2. destruct mid as [v|]; cbn [opt_entry app]; [now apply sorted_app|].
+      eapply sorted_app2; eauto.
+    Qed.
+
+    Lemma find_upd k g k' l : sorted l ->
+      find k' (upd k g l) = if cmp k' k =? 0 then g (find k l) else find k' l.
+    Proof.
+      intros S. unfold upd. destruct (g (find k l)) eqn:E.
+      - rewrite find_put. destruct (cmp k' k =? 0); auto.
+      - rewrite find_del by auto. destruct (cmp k' k =? 0); auto.
+    Qed.
   End Maps.
+
+  (* ------------------------------------------------------------------ pointwise combination of two maps
+     (union, intersection, difference, merge): the divide-and-conquer identity the tree algorithms use *)
+  Section Merge.
+    Context {V1 V2 V3 : Type}.
+    Variable comb : K -> option V1 -> option V2 -> option V3.
+    Hypothesis comb_none : forall k, comb k None None = None.
+
+    Definition pointwise (l1 : list (K * V1)) (l2 : list (K * V2)) (l : list (K * V3)) : Prop :=
+      forall k, find k l = comb k (find k l1) (find k l2).
+
+    Lemma pointwise_some l1 l2 l k : pointwise l1 l2 l -> find k l <> None -> find k l1 <> None \/ find k l2 <> None.
+    Proof.
+      intros P H. rewrite (P k) in H. destruct (find k l1); [left; discriminate|].
+      destruct (find k l2); [right; discriminate|]. now rewrite comb_none in H.
+    Qed.
+
+    Lemma merge_split_l l1 k1 x r1 b2 bl br :
+      sorted (l1 ++ (k1, x) :: r1) -> sorted bl -> sorted br ->
+      pointwise l1 (below k1 b2) bl -> pointwise r1 (above k1 b2) br ->
+      sorted (bl ++ opt_entry k1 (comb k1 (Some x) (find k1 b2)) ++ br) /\
+      pointwise (l1 ++ (k1, x) :: r1) b2 (bl ++ opt_entry k1 (comb k1 (Some x) (find k1 b2)) ++ br).
+    Proof.
+      intros S1 Sl Sr Pl Pr. destruct (sorted_app_inv _ _ _ _ S1) as (Sl1 & Sr1 & Hl1 & Hr1).
+      assert (Hbl : keys_lt bl k1).
+      { apply keys_lt_find. intros k' Hk'. destruct (pointwise_some _ _ _ _ Pl Hk') as [H|H].
+        - eapply keys_lt_find; eauto.
+        - rewrite find_below in H. destruct (Z.ltb_spec (cmp k' k1) 0); [assumption|congruence]. }
+      assert (Hbr : keys_gt br k1).
+      { apply keys_gt_find. intros k' Hk'. destruct (pointwise_some _ _ _ _ Pr Hk') as [H|H].
+        - eapply keys_gt_find; eauto.
+        - rewrite find_above in H. destruct (Z.ltb_spec 0 (cmp k' k1)); [now apply gt_lt|congruence]. }
+      split; [now apply sorted_mid|]. intros k. rewrite find_mid by auto.
+      destruct (cmp_cases k k1) as [(L & A & B)|[(E & A & B)|(L & A & B)]].
+      - destruct (Z.ltb_spec (cmp k k1) 0); [|lia]. rewrite (Pl k), find_below, find_app_lt by auto.
+        destruct (Z.ltb_spec (cmp k k1) 0); [reflexivity|lia].
+      - subst k. destruct (Z.ltb_spec (cmp k1 k1) 0); [lia|]. destruct (Z.eqb_spec (cmp k1 k1) 0); [|lia].
+        now rewrite find_app_eq by auto.
+      - destruct (Z.ltb_spec (cmp k k1) 0); [lia|]. destruct (Z.eqb_spec (cmp k k1) 0); [lia|].
+        rewrite (Pr k), find_above, find_app_gt by auto. destruct (Z.ltb_spec 0 (cmp k k1)); [reflexivity|lia].
+    Qed.
+
+    Lemma merge_split_r b1 l2 k2 y r2 bl br :
+      sorted (l2 ++ (k2, y) :: r2) -> sorted bl -> sorted br ->
+      pointwise (below k2 b1) l2 bl -> pointwise (above k2 b1) r2 br ->
+      sorted (bl ++ opt_entry k2 (comb k2 (find k2 b1) (Some y)) ++ br) /\
+      pointwise b1 (l2 ++ (k2, y) :: r2) (bl ++ opt_entry k2 (comb k2 (find k2 b1) (Some y)) ++ br).
+    Proof.
+      intros S2 Sl Sr Pl Pr. destruct (sorted_app_inv _ _ _ _ S2) as (Sl2 & Sr2 & Hl2 & Hr2).
+      assert (Hbl : keys_lt bl k2).
+      { apply keys_lt_find. intros k' Hk'. destruct (pointwise_some _ _ _ _ Pl Hk') as [H|H].
+        - rewrite find_below in H. destruct (Z.ltb_spec (cmp k' k2) 0); [assumption|congruence].
+        - eapply keys_lt_find; eauto. }
+      assert (Hbr : keys_gt br k2).
+      { apply keys_gt_find. intros k' Hk'. destruct (pointwise_some _ _ _ _ Pr Hk') as [H|H].
+        - rewrite find_above in H. destruct (Z.ltb_spec 0 (cmp k' k2)); [now apply gt_lt|congruence].
+        - eapply keys_gt_find; eauto. }
+      split; [now apply sorted_mid|]. intros k. rewrite find_mid by auto.
+      destruct (cmp_cases k k2) as [(L & A & B)|[(E & A & B)|(L & A & B)]].
+      - destruct (Z.ltb_spec (cmp k k2) 0); [|lia]. rewrite (Pl k), find_below, find_app_lt by auto.
+        destruct (Z.ltb_spec (cmp k k2) 0); [reflexivity|lia].
+      - subst k. destruct (Z.ltb_spec (cmp k2 k2) 0); [lia|]. destruct (Z.eqb_spec (cmp k2 k2) 0); [|lia].
+        now rewrite find_app_eq by auto.
+      - destruct (Z.ltb_spec (cmp k k2) 0); [lia|]. destruct (Z.eqb_spec (cmp k k2) 0); [lia|].
+        rewrite (Pr k), find_above, find_app_gt by auto. destruct (Z.ltb_spec 0 (cmp k k2)); [reflexivity|lia].
+    Qed.
+  End Merge.
+
 End Order.
 
 Arguments cmp_order {K} cmp.
@@ -401,3 +590,5 @@ Arguments above {K} cmp {V}.
 Arguments afilter {K V}.
 Arguments afold {K V A}.
 Arguments aunion {K} cmp {V}.
+Arguments pointwise {K} cmp {V1 V2 V3}.
+Arguments opt_entry {K V}.
